@@ -55,7 +55,19 @@ def lower(x):
         if src is None:
             raise Unsupported("*args of a sequence with no source value")
         return uf("star_args", 1)(src)
-    return to_val(x)
+    try:
+        return to_val(x)
+    except Unsupported:
+        if isinstance(x, (SV, SInt, SBool, SSeq, SDict, Obj)) or getattr(x, "host_symbolic", False):
+            raise
+        # any other concrete Python object: identified by its type and repr (equal objects -> equal terms)
+        key = (type(x).__name__, repr(x))
+        if key not in _CONCRETE_IDS:
+            _CONCRETE_IDS[key] = len(_CONCRETE_IDS)
+        return VObj(z3.IntVal(6_000_000 + _CONCRETE_IDS[key]))
+
+
+_CONCRETE_IDS: dict = {}
 
 
 def call_uf(I, path, name, args, kwargs, may_raise=True, result_cls=None):
@@ -134,6 +146,8 @@ def make_interp(raising=True):
     conv(B.int, "int", int)
     conv(B.float, "float", float)
     conv(B.bytes, "bytes", bytes)
+
+    I.builtin_models[datetime.timedelta.__floordiv__] = lambda I, path, a, k: call_uf(I, path, "timedelta.__floordiv__", a, k, may_raise=False)
 
     def iter_hook(I, path, v):
         if isinstance(v, SV):
